@@ -241,6 +241,11 @@ def check(ctx, lib, c):
     data, label = build(lib, c)
     gs = "g%d" % g
     exp_ok, P = ref_decode(lib, g, data, comp)
+    if c["prefill"] in (0x01, 0xFF):
+        # the caller first looked at the bytes without validation (any outcome is allowed there); the validating verdict that follows
+        # is a function of the bytes alone
+        lib_decode(lib, g, data, comp, False, c["prefill"])
+        ctx.event("unchecked-first")
     ok, img = lib_decode(lib, g, data, comp, True, c["prefill"])
     cls = "%s-%s-%s" % (gs, "comp" if comp else "uncomp", label)
     ctx.count(c, label != "none", cls + (":accept" if exp_ok else ":reject"))
@@ -256,6 +261,19 @@ def check(ctx, lib, c):
                lambda: "bytes %s: just %s as g%d, then decoded as g%d %s: verdict %r, expected %r" % (data.hex(), "accepted" if ok else "rejected", g, g2_, "compressed" if comp2 else "uncompressed", ok4, exp2))
         if exp2 and ok4:
             expect(c05.b_aff(lib, g2_, img4) == P2, "g%d_unmarshal/%s/after-other-decoder/wrong-point" % (g2_, "compressed" if comp2 else "uncompressed"), lambda: data.hex())
+    # the leading 48 / 96 bytes through the decoders of that length, right after this one (a G2 x coordinate starts with a value that
+    # reads as a G1 x coordinate): again each verdict is a function of those bytes and that decoder's form alone
+    for g3, comp3 in ((1, True), (1, False), (2, True)):
+        L = enc_len(g3, comp3)
+        if L < len(data) and c["prefill"] in (0xCD, 0xFF):
+            pre = data[:L]
+            exp3, P3 = ref_decode(lib, g3, pre, comp3)
+            ok7, img7 = lib_decode(lib, g3, pre, comp3, True, c["prefill"])
+            ctx.event("prefix-decoder")
+            s3 = "g%d_unmarshal/%s/after-longer-input" % (g3, "compressed" if comp3 else "uncompressed")
+            expect(ok7 == exp3, s3, lambda: "bytes %s %s as g%d, then their first %d bytes: verdict %r, expected %r" % (data.hex(), "accepted" if ok else "rejected", g, L, ok7, exp3))
+            if exp3 and ok7:
+                expect(c05.b_aff(lib, g3, img7) == P3, s3 + "/wrong-point", lambda: pre.hex())
     if exp_ok:
         expect(ok, sig + "/rejected-valid", lambda: "bytes=%s" % data.hex())
         got = c05.b_aff(lib, g, img)
